@@ -150,7 +150,8 @@ struct Ctx {
 		return new (m) T{std::forward<A>(a)...};
 	}
 	void *raw(size_t n, size_t align = 16) {
-		void *m = aligned_alloc(align < 16 ? 16 : align, (n + align - 1) / align * align + (n == 0 ? align : 0));
+		if(align < 16) align = 16;
+		void *m = aligned_alloc(align, (n + align - 1) / align * align + (n == 0 ? align : 0));
 		arena.push_back({m, nullptr});
 		return m;
 	}
@@ -193,8 +194,13 @@ extern "C" void frg_log(const char *) {}
 extern "C" void __asan_set_error_report_callback(void (*)(const char *)) __attribute__((weak));
 extern "C" void __ubsan_on_report(void) { verif::san().ubsan++; }
 extern "C" void __tsan_on_report(void *) { verif::san().tsan++; }
-extern "C" const char *__asan_default_options() { return "halt_on_error=0:detect_leaks=0:allocator_may_return_null=1:detect_stack_use_after_return=0:print_summary=0"; }
-extern "C" const char *__ubsan_default_options() { return "print_stacktrace=0:halt_on_error=0"; }
+// ASan and UBSan de-duplicate reports by program counter / source location when they run in
+// recover mode, which would make every later case (and therefore shrinking) blind to a defect
+// that was already reported once. They therefore halt: the process dies with the report, the
+// journal holds the case, and the driver minimises it by re-running --replay (DESIGN.md 1.2).
+extern "C" const char *__asan_default_options() { return "halt_on_error=1:detect_leaks=0:allocator_may_return_null=1:detect_stack_use_after_return=0:exitcode=5"; }
+extern "C" const char *__ubsan_default_options() { return "print_stacktrace=0:halt_on_error=1:exitcode=5"; }
+extern "C" void __sanitizer_set_death_callback(void (*)(void)) __attribute__((weak));
 extern "C" const char *__tsan_default_options() { return "suppress_equal_stacks=0:suppress_equal_addresses=0:halt_on_error=0:exitcode=0:report_signal_unsafe=0"; }
 
 namespace verif {
@@ -408,6 +414,7 @@ inline int engine_main(int argc, char **argv) {
 		} else { fprintf(stderr, "unknown argument %s\n", a.c_str()); return 64; }
 	}
 	if(__asan_set_error_report_callback) __asan_set_error_report_callback(asan_cb);
+	if(__sanitizer_set_death_callback) __sanitizer_set_death_callback(flush_stats);
 	if(!cfg.out.empty() && mode != "replay") {
 		cfg.journal_fd = open((cfg.out + ".current.bin").c_str(), O_CREAT | O_TRUNC | O_WRONLY, 0644);
 	}
